@@ -148,6 +148,193 @@ def h_dest_open(ctx, N, mode):
     verdict(ctx, w, "receiver sequence")
 
 
+# ---- second sentence of the property: the same transfer on the native filestore (concrete validation)
+class NativeRecFs:
+    """VirtualFilestore over the real NativeFilestore, paths remapped below a temporary root"""
+
+    def __new__(cls, world, name, root):
+        import pathlib
+
+        from cfdppy.filestore import NativeFilestore, VirtualFilestore
+
+        class _Fs(VirtualFilestore):
+            def __init__(self):
+                self.n = NativeFilestore()
+                self.calls = []
+                self.files = _Files(self)
+                self.reject = None
+                self.root = pathlib.Path(root) / name
+                self.root.mkdir(parents=True, exist_ok=True)
+
+            def _p(self, p):
+                return self.root / str(p).lstrip("/")
+
+            def add_dir(self, p):
+                self._p(p).mkdir(parents=True, exist_ok=True)
+
+            def add_source_file(self, p, size):
+                self._p(p).parent.mkdir(parents=True, exist_ok=True)
+                self._p(p).write_bytes(world.src_bytes(0, size))
+
+            def add_plain_file(self, p, nbytes=0):
+                self._p(p).parent.mkdir(parents=True, exist_ok=True)
+                self._p(p).write_bytes(b"\xee" * nbytes)
+
+            def conc_bytes(self, p):
+                return self._p(p).read_bytes()
+
+            def _rec(self, *c):
+                self.calls.append(c)
+
+            def read_data(self, file, offset, read_len=None):
+                self._rec("read", str(file)); return self.n.read_data(self._p(file), offset, read_len)
+
+            def read_from_opened_file(self, b, offset, read_len):
+                return self.n.read_from_opened_file(b, offset, read_len)
+
+            def is_directory(self, path):
+                self._rec("is_directory", str(path)); return self.n.is_directory(self._p(path))
+
+            def filename_from_full_path(self, path):
+                return self.n.filename_from_full_path(path)
+
+            def file_exists(self, path):
+                self._rec("file_exists", str(path)); return self.n.file_exists(self._p(path))
+
+            def truncate_file(self, file):
+                self._rec("truncate", str(file)); return self.n.truncate_file(self._p(file))
+
+            def file_size(self, file):
+                self._rec("file_size", str(file)); return self.n.file_size(self._p(file))
+
+            def write_data(self, file, data, offset):
+                self._rec("write", str(file), offset, len(data)); return self.n.write_data(self._p(file), data, offset)
+
+            def create_file(self, file):
+                self._rec("create", str(file))
+                self._p(file).parent.mkdir(parents=True, exist_ok=True)
+                return self.n.create_file(self._p(file))
+
+            def delete_file(self, file):
+                self._rec("delete", str(file)); return self.n.delete_file(self._p(file))
+
+            def rename_file(self, a, b):
+                return self.n.rename_file(self._p(a), self._p(b))
+
+            def replace_file(self, a, b):
+                return self.n.replace_file(self._p(a), self._p(b))
+
+            def create_directory(self, d):
+                return self.n.create_directory(self._p(d))
+
+            def remove_directory(self, d, recursive=False):
+                return self.n.remove_directory(self._p(d), recursive)
+
+            def list_directory(self, d, t, recursive=False):
+                return self.n.list_directory(self._p(d), self._p(t), recursive)
+
+            def calculate_checksum(self, checksum_type, file_path, size_to_verify, segment_len=4096):
+                self._rec("checksum", str(file_path), size_to_verify)
+                return self.n.calculate_checksum(checksum_type, self._p(file_path), size_to_verify, segment_len)
+
+        class _Files:
+            def __init__(self, fs):
+                self.fs = fs
+
+            def __contains__(self, p):
+                return self.fs._p(p).is_file()
+
+        return _Fs()
+
+
+class LazyCtx(symex.Ctx):
+    """concrete context that invents values for inputs it is asked for (seeded), and remembers them"""
+
+    def __init__(self, rnd, model=None):
+        super().__init__("conc", model=dict(model or {}))
+        self.rnd = rnd
+
+    def int(self, name, lo=None, hi=None):
+        if name not in self.model_in:
+            lo_ = 0 if lo is None else lo
+            hi_ = lo_ + 48 if hi is None else min(hi, lo_ + 48)
+            self.model_in[name] = self.rnd.randint(lo_, hi_)
+        return super().int(name, lo, hi)
+
+    def bool(self, name):
+        if name not in self.model_in:
+            self.model_in[name] = self.rnd.random() < 0.5
+        return super().bool(name)
+
+
+def _one_transfer(ctx, native_root, M, K):
+    w = World(ctx)
+    if native_root is not None:
+        w.fs = lambda name: w.all_fs.append(NativeRecFs(w, name, native_root)) or w.all_fs[-1]
+    sysm, cfg = c02.setup(ctx, w, M, 2, 2, K=K, cktypes=[ChecksumType.CRC_32, ChecksumType.MODULAR, ChecksumType.NULL_CHECKSUM],
+                          limits=K + 1, fixed={"crc": False})
+    sysm.start()
+    done = sysm.run(14 + 10 * K + 2 * M)
+    view = {
+        "done": done, "exceptions": [(a, type(o.exc).__name__) for a, o in sysm.exceptions],
+        "trace": [t for t in sysm.trace], "src_ind": [(e[0],) + tuple(int(v) for v in e[2:5]) if e[0] == "finished" else (e[0],) for e in sysm.src.user.ev],
+        "dst_ind": [(e[0],) + tuple(int(v) for v in e[2:5]) if e[0] == "finished" else (e[0],) for e in sysm.dst.user.ev],
+        "faults": [(f[0], int(f[2])) for f in sysm.src.fh.ev + sysm.dst.fh.ev],
+        "dst_ops": [c[0] for c in sysm.dst.fs.calls],
+        "file": sysm.dst.fs.conc_bytes("/dst/file.bin").hex() if "/dst/file.bin" in sysm.dst.fs.files else None,
+    }
+    return view
+
+
+def native_equivalence(seed, n):
+    """the same (seeded) transfers over the in-memory filestore and over NativeFilestore in a temporary
+    directory must give the same PDUs, indications, fault callbacks, filestore operations and file"""
+    import random
+    import shutil
+    import tempfile
+
+    from vf.world import apply_shims
+    rnd = random.Random(1000 + seed)
+    ran, skipped = 0, 0
+    for i in range(n):
+        M, K = rnd.choice([(1, 0), (2, 0), (3, 0), (1, 1), (2, 1), (2, 2)])
+        ctx = LazyCtx(rnd)
+        symex.Ctx.cur = ctx
+        try:
+            try:
+                a = _one_transfer(ctx, None, M, K)
+            except (symex.HarnessError, symex.PathEnd):
+                skipped += 1
+                continue
+            ctx2 = LazyCtx(rnd, model=ctx.model_in)
+            symex.Ctx.cur = ctx2
+            root = tempfile.mkdtemp(prefix="vfc16-")
+            try:
+                b = _one_transfer(ctx2, root, M, K)
+            finally:
+                shutil.rmtree(root, ignore_errors=True)
+        finally:
+            symex.Ctx.cur = None
+        ran += 1
+        if a != b:
+            diff = [k for k in a if a[k] != b[k]]
+            return {"ok": False, "detail": {"sig": f"native vs in-memory transfer differs in {diff}"},
+                    "counterexample": {"model": {k: v for k, v in ctx.model_in.items() if not k.startswith('_')}, "M": M, "K": K,
+                                       "memory": str({k: a[k] for k in diff})[:600], "native": str({k: b[k] for k in diff})[:600]}}
+    return {"ok": ran >= n // 2, "detail": f"{ran} seeded transfers (M<=3, K<=2, all modes/closure/NAK modes/3 checksum types/4 destination shapes) "
+                                             f"identical on the in-memory and the native filestore; {skipped} draws violated a precondition"}
+
+
+def extra_checks(tier, seed):
+    n = 60 if tier == "quick" else 400
+    return [("native_filestore_equivalence", lambda: native_equivalence(seed, n))]
+
+
+def replay_extra(rp):
+    print(rp)
+    return 1
+
+
 def plan(tier):
     q = tier == "quick"
     specs = []
@@ -167,7 +354,7 @@ BOUNDS = {
     "quick": "closed-loop transfers of C02/C03 shape over purely in-memory filestores whose paths (/src/..., /dst/...) do not exist on the host: M=2 fault-free (both modes, closure, CRC-32 and modular checksum, NAK modes, three destination shapes) and M=1 with one link fault; sender scenario with NAK retransmission (symbolic request) and cancel request (prefix checksum) in both modes; receiver alone on every sequence of N=4 events incl. cancel request / EOF(cancel) with disposition on cancellation on and off",
     "thorough": "adds M=2/K=1 and M=1/K=2",
 }
-OUTSIDE = "the sentence 'behaves exactly like the same transfer on the native filestore' is covered only indirectly: the in-memory transfer must succeed with an identical file and the native filestore is checked against its reference model in C17; a differential run native vs in-memory is not built"
+OUTSIDE = "the sentence 'behaves exactly like the same transfer on the native filestore' is checked by CONCRETE validation only (seeded transfers run on both filestores and compared; not a solver result); host access routes that raise no audit event and bypass os.stat/Path/open"
 FUNCTIONS = ["SourceHandler.put_request", "_prepare_file_params", "_prepare_file_data_pdu", "_checksum_calculation", "DestHandler._init_vfs_handling", "_handle_fd_pdu", "_checksum_verify", "_notice_of_completion"]
 EXPLANATION = ("Access monitor: request paths are Path objects whose exists/is_dir/stat/open are answered from the in-memory filestore and recorded; `open` bound in the handler modules is recorded; "
                "a sys audit hook (open, os.remove/rename/mkdir/rmdir/truncate/listdir/scandir, shutil.rmtree) and wrapped os.stat/os.lstat catch anything else on the virtual paths during handler calls.")
